@@ -44,8 +44,10 @@ for d in sorted(glob.glob(f"{root}/seeded/*")):
     except Exception: pass
     if m.get("how_to_read"): what = m["how_to_read"]
     nt += 1; nd += 1 if m["detected"] else 0
-    rows.append(f"| {m['seed']} | {cell(what)[:420]} | {'**caught**' if m['detected'] else 'missed' + (': ' + m['why_missed'] if m.get('why_missed') else '')} | {cell(', '.join('`'+o+'`' for o in m['violated_obligations'][:3]))} |")
-rows.append(f"\n{nd} of {nt} seeded changes are caught by the quick check of the property they target.")
+    hist = (" — " + m["history"]) if m.get("history") else ""
+    rows.append(f"| {m['seed']} | {cell(what)[:420]} | {('**caught**' + hist) if m['detected'] else 'missed' + (': ' + m['why_missed'] if m.get('why_missed') else '')} | {cell(', '.join('`'+o+'`' for o in m['violated_obligations'][:3]))} |")
+na = sum(1 for d in sorted(glob.glob(f"{root}/seeded/*")) if os.path.exists(f"{d}/meta.json") and json.load(open(f"{d}/meta.json")).get("detected") and not os.path.exists(f"{d}/strengthened.txt"))
+rows.append(f"\n{nd} of {nt} seeded changes are caught by the quick check of the property they target; {na} of them were caught by the checks as they stood when the change was produced, the others only after the check was built or strengthened with the change known (stated per row).")
 s = region(s, "SEEDED", "\n".join(rows))
 
 for p in props:
